@@ -256,10 +256,11 @@ def check(pid, tier, base_seed):
         },
         "assumptions": prop.assumptions,
     }
-    os.makedirs(os.path.join(VERIF, "evidence"), exist_ok=True)
-    with open(os.path.join(VERIF, "evidence", f"{pid}.json"), "w") as f:
-        json.dump(evidence, f, indent=1)
-        f.write("\n")
+    if os.environ.get("QV_NO_EVIDENCE") != "1":   # sensitivity runs on scratch copies never write evidence
+        os.makedirs(os.path.join(VERIF, "evidence"), exist_ok=True)
+        with open(os.path.join(VERIF, "evidence", f"{pid}.json"), "w") as f:
+            json.dump(evidence, f, indent=1)
+            f.write("\n")
 
     for ln in out_lines:
         print(ln)
